@@ -252,9 +252,18 @@ func startDoHAt(certDir, addr string) (*dohServer, error) {
 		return nil, err
 	}
 	s := &dohServer{conns: map[net.Conn]bool{}, hangStop: make(chan struct{})}
-	ln, err := net.Listen("tcp", addr)
-	if err != nil {
-		return nil, err
+	// the listener of the previous world of this run may still be on its way out (http.Server.Close returns before
+	// the kernel has let go of the port in rare cases): retry for a moment
+	var ln net.Listener
+	for try := 0; ; try++ {
+		ln, err = net.Listen("tcp", addr)
+		if err == nil {
+			break
+		}
+		if try >= 100 {
+			return nil, err
+		}
+		time.Sleep(10 * time.Millisecond)
 	}
 	s.ln = ln
 	s.srv = &http.Server{
@@ -470,6 +479,7 @@ func (w *rworld) close() {
 	close(w.doh.hangStop)
 	w.doh.dropConns(0)
 	_ = w.doh.srv.Close()
+	_ = w.doh.ln.Close() // also when Serve has not registered it yet
 	_ = w.dns.conn.Close()
 }
 
